@@ -5,6 +5,10 @@
 
 #include <random>
 
+#ifdef CHESSPP_VERIF
+#include "verif_hooks.h"
+#endif
+
 namespace engine
 {
 uint64_t PIECE_HASH[PIECE_NUM][SQUARE_NUM];
@@ -20,6 +24,13 @@ namespace
 
 uint64_t random_uint64()
 {
+#ifdef CHESSPP_VERIF
+    if (verif::zobrist_seed.load() != 0)
+    {
+        static std::mt19937_64 seeded(verif::zobrist_seed.load());
+        return seeded();
+    }
+#endif
     static std::random_device rd;
     static std::mt19937_64 eng(rd());
     static std::uniform_int_distribution<uint64_t> dist;
